@@ -2,6 +2,7 @@ package main
 
 import (
 	"fmt"
+	"os"
 	"path/filepath"
 	"sort"
 	"strings"
@@ -132,5 +133,12 @@ func (e *evidence) write() {
 		"wall_s":      e.wall,
 		"violations":  e.violations,
 	}
-	writeJSON(filepath.Join(root, "evidence", e.id+".json"), out)
+	dir := "evidence"
+	if os.Getenv("VERIF_REPO") != "" {
+		// a run against a scratch checkout (seeded changes) must not overwrite
+		// the evidence of the real tree
+		dir = filepath.Join("bin", "evidence-scratch")
+	}
+	os.MkdirAll(filepath.Join(root, dir), 0o755)
+	writeJSON(filepath.Join(root, dir, e.id+".json"), out)
 }
